@@ -619,10 +619,13 @@ fn fse_fact(model: &[u32; 256], cfg: &FseConfig, x: &[u8]) -> &'static str {
 
 /// Failure classes of the FSE family do not contain the preset name (one normaliser defect shows under every
 /// preset) but the normaliser in use and `fse_fact`; a decoder `Err` is classified by its message alone.
-fn fse_class(o: Outcome, cfg: &FseConfig, fact: &str, _blocks: bool) -> Outcome {
+fn fse_class(o: Outcome, cfg: &FseConfig, fact: &str, many_blocks: bool) -> Outcome {
     match o {
         Outcome::Fail(mut f) => {
-            if !f.class.starts_with("decode_err(") {
+            if many_blocks {
+                // 64 = largest block count `FseDecoder::decompress` recognises as a parallel container
+                f.class = "parallel_container_with_more_than_64_blocks".to_string();
+            } else if !f.class.starts_with("decode_err(") {
                 f.class = format!("{}|normaliser={}|{}", f.class, if cfg.entropy_optimization { "entropy" } else { "simple" }, fact);
             }
             Outcome::Fail(f)
@@ -657,7 +660,7 @@ fn run_fse(v: &str, x: &[u8], t: &[u8], _tr: Train) -> Outcome {
     };
     let cfg = fse_preset(preset);
     let (c1, c2) = (cfg.clone(), cfg.clone());
-    let blocks = cfg.parallel_blocks.is_some() && x.len() > cfg.block_size * 2;
+    let blocks = cfg.parallel_blocks.map_or(false, |nb| nb > 1) && x.len() > cfg.block_size * 2 && x.len().div_ceil(cfg.block_size) > 64;
     let (o, model) = match mode {
         "" => (
             judge("", x, "", || Ok((fse_compress_with_config(x, c1).map_err(es)?, ())), |y, _| fse_decompress_with_config(y, c2).map_err(es)),
@@ -884,35 +887,7 @@ fn sv(v: &[&str]) -> Vec<String> {
     v.iter().map(|s| s.to_string()).collect()
 }
 
-fn debug(what: &str) {
-    use zipora::entropy::fse::FseTable;
-    let parts: Vec<&str> = what.split(':').collect();
-    let shape: Sh = serde_json::from_str(&format!("\"{}\"", parts[0])).unwrap();
-    let n: usize = parts[1].parse().unwrap();
-    let k: usize = parts[2].parse().unwrap();
-    let x = expand(shape, n, k);
-    let f = freqs(&x);
-    let t = FseTable::new(&f, &FseConfig::default()).unwrap();
-    let mut sum = 0u32;
-    let mut zero = vec![];
-    for s in 0..256 {
-        sum += t.enc_symbols[s].freq as u32;
-        if f[s] > 0 && t.enc_symbols[s].freq == 0 {
-            zero.push(s);
-        }
-    }
-    eprintln!("distinct={} sum_norm={} zero_slot_symbols={:?}", distinct(&x), sum, zero);
-    let y = fse_compress(&x).unwrap();
-    let z = fse_decompress(&y).unwrap();
-    let at = z.iter().zip(&x).position(|(a, b)| a != b);
-    eprintln!("|y|={} first diff {:?}", y.len(), at);
-}
-
 fn main() {
-    if let Ok(d) = std::env::var("C01_DEBUG") {
-        debug(&d);
-        return;
-    }
     zverif::main_with("C01", |reg, tier| {
         let q = tier == Tier::Quick;
         const K_RANS: &[usize] = &[1, 2, 3, 4, 17, 255, 256];
@@ -937,8 +912,8 @@ fn main() {
         let par = if q { def(5, &[N_SMALL], K_FULL, SHAPES_ALL) } else { def(6, &[N_QUICK, N_THOROUGH_EXTRA], K_FULL, SHAPES_ALL) };
         let rans = if q { def(5, &[N_QUICK], K_RANS, SHAPES_ALL) } else { def(7, &[N_QUICK, N_THOROUGH_EXTRA, N_HUGE], K_RANS, SHAPES_ALL) };
         // codecs whose model construction costs 20..200 ms (up to 1025 trees of 256 symbols per model)
-        let ctx = if q { def(3, &[N_CTX], K3, SH_SLOW) } else { def(5, &[N_CTX_T], K_SMALL, SHAPES_ALL) };
-        let il = if q { def(3, &[N_IL], K3, SH_IL) } else { def(5, &[N_CTX_T], K_SMALL, SHAPES_ALL) };
+        let ctx = if q { def(3, &[N_CTX], K3, SH_SLOW) } else { def(5, &[N_CTX_T], K3, SHAPES_ALL) };
+        let il = if q { def(3, &[N_IL], K3, SH_IL) } else { def(5, &[N_CTX_T], K3, SHAPES_ALL) };
         // O(n * min(n, 32768)) LZ search: n <= 1025 (quick) / 8193 (thorough)
         let lz = if q { def(4, &[N_LZ], K_SMALL, SH_LZ) } else { def(6, &[N_LZ, N_SMALL, N_THOROUGH_EXTRA], K_SMALL, SH_LZ) };
         let lz_opt = if q { def(5, &[N_LZ, N_SMALL], K_SMALL, SH_LZ) } else { def(7, &[N_LZ, N_QUICK, N_THOROUGH_EXTRA], K_SMALL, SHAPES_ALL) };
